@@ -4,22 +4,39 @@
 (* (src/components/misc/cro.rs) over INTEGER energies:                      *)
 (*   pe[i]  potential energy = objective value of individual i             *)
 (*   ke[i]  kinetic energy of molecule i     buffer  central energy buffer *)
+(*   sol[i] the solution (a point of the search space, named by a small    *)
+(*          integer) individual i holds.  Objective values are whatever    *)
+(*          the evaluation returned when the individual was evaluated: two *)
+(*          individuals may hold the SAME solution with DIFFERENT objective *)
+(*          values (noisy objective functions), the same solution with the *)
+(*          same value (copies), or different solutions with equal values. *)
+(*          A molecule is named by its position, never by what it holds.   *)
+(*          Products hold the point named Fresh -- which may well be a     *)
+(*          point a bystander (or the reactant itself) holds already.      *)
+(*   below  number of populations underneath the reaction's population     *)
+(*          (a caller's own populations: CRO used as a step of another      *)
+(*          heuristic); they are nobody's operands.                         *)
 (* Reactants are named by their index in the population; products by their *)
 (* objective values; random splits are nondeterministic integer choices.   *)
 (* The stack layout [.., population, reactants, products] is reduced to    *)
 (* `h` (height): every update consumes the two upper populations.          *)
+(* Energies are in units the caller chooses (the binding runs the same     *)
+(* integer state at several power-of-two units, see Trace_Cro).            *)
 (* act = [op, i, j, p1, p2];  res = [k] (accepted | rejected | err).       *)
 (***************************************************************************)
 EXTENDS Naturals, Integers, Sequences, FiniteSets
 
 CONSTANTS MaxE,      \* energies explored by the model checker: 0..MaxE
-          MaxMol     \* number of molecules explored
+          MaxMol,    \* number of molecules explored
+          MaxSol,    \* number of distinct solutions the initial individuals hold (1: everybody holds the same point)
+          MaxBelow   \* populations underneath the reaction's population: 0..MaxBelow
 
-VARIABLES pe, ke, buffer, h, act, res
-cvars == <<pe, ke, buffer, h, act, res>>
+VARIABLES pe, ke, sol, buffer, below, h, act, res
+cvars == <<pe, ke, sol, buffer, below, h, act, res>>
 
 A(op, i, j, p1, p2) == [op |-> op, i |-> i, j |-> j, p1 |-> p1, p2 |-> p2]
 N == Len(pe)
+Fresh == 1
 RECURSIVE SumSeq(_)
 SumSeq(q) == IF Len(q) = 0 THEN 0 ELSE q[1] + SumSeq(Tail(q))
 Total(p, k, b) == SumSeq(p) + SumSeq(k) + b
@@ -28,21 +45,23 @@ Remove(q, j) == SubSeq(q, 1, j - 1) \o SubSeq(q, j + 1, Len(q))
 \* on-wall ineffective collision of molecule i producing a neighbour with objective p1
 OnWall(i, p1) ==
     LET e == pe[i] + ke[i] - p1 IN
-    /\ act' = A("on_wall", i, 0, p1, 0) /\ h' = h - 2
+    /\ act' = A("on_wall", i, 0, p1, 0) /\ h' = h - 2 /\ UNCHANGED below
     /\ IF e >= 0
        THEN \E a \in 0..e :                         \* kinetic share a, the rest goes to the buffer
               /\ pe' = [pe EXCEPT ![i] = p1] /\ ke' = [ke EXCEPT ![i] = a]
+              /\ sol' = [sol EXCEPT ![i] = Fresh]
               /\ buffer' = buffer + (e - a) /\ res' = [k |-> "accepted"]
-       ELSE UNCHANGED <<pe, ke, buffer>> /\ res' = [k |-> "rejected"]
+       ELSE UNCHANGED <<pe, ke, sol, buffer>> /\ res' = [k |-> "rejected"]
 
 \* decomposition of molecule i into two molecules with objectives p1, p2 (may draw from the buffer)
 Decompose(i, p1, p2) ==
     LET e == pe[i] + ke[i] - (p1 + p2) IN
-    /\ act' = A("decompose", i, 0, p1, p2) /\ h' = h - 2
+    /\ act' = A("decompose", i, 0, p1, p2) /\ h' = h - 2 /\ UNCHANGED below
     /\ \/ /\ e >= 0
           /\ \E a \in 0..e :
                /\ pe' = Append([pe EXCEPT ![i] = p1], p2)
                /\ ke' = Append([ke EXCEPT ![i] = a], e - a)
+               /\ sol' = Append([sol EXCEPT ![i] = Fresh], Fresh)
                /\ buffer' = buffer /\ res' = [k |-> "accepted"]
        \/ /\ e < 0
           /\ \E x \in 0..buffer :                   \* energy drawn from the buffer
@@ -50,19 +69,21 @@ Decompose(i, p1, p2) ==
                THEN \E a \in 0..(e + x) :
                       /\ pe' = Append([pe EXCEPT ![i] = p1], p2)
                       /\ ke' = Append([ke EXCEPT ![i] = a], e + x - a)
+                      /\ sol' = Append([sol EXCEPT ![i] = Fresh], Fresh)
                       /\ buffer' = buffer - x /\ res' = [k |-> "accepted"]
-               ELSE UNCHANGED <<pe, ke, buffer>> /\ res' = [k |-> "rejected"]
+               ELSE UNCHANGED <<pe, ke, sol, buffer>> /\ res' = [k |-> "rejected"]
 
 \* inter-molecular ineffective collision of molecules i # j producing p1, p2
 Intermolecular(i, j, p1, p2) ==
     LET e == pe[i] + ke[i] + pe[j] + ke[j] - (p1 + p2) IN
-    /\ act' = A("intermolecular", i, j, p1, p2) /\ h' = h - 2
+    /\ act' = A("intermolecular", i, j, p1, p2) /\ h' = h - 2 /\ UNCHANGED below
     /\ IF e >= 0
        THEN \E a \in 0..e :
               /\ pe' = [pe EXCEPT ![i] = p1, ![j] = p2]
               /\ ke' = [ke EXCEPT ![i] = a, ![j] = e - a]
+              /\ sol' = [sol EXCEPT ![i] = Fresh, ![j] = Fresh]
               /\ buffer' = buffer /\ res' = [k |-> "accepted"]
-       ELSE UNCHANGED <<pe, ke, buffer>> /\ res' = [k |-> "rejected"]
+       ELSE UNCHANGED <<pe, ke, sol, buffer>> /\ res' = [k |-> "rejected"]
 
 \* synthesis of molecules i # j into one molecule with objective p1: both reactants disappear and the product gets ONE
 \* record; which slot it takes is not fixed by the statement (the code uses a reactant's slot), only that the
@@ -71,35 +92,42 @@ InsertAt(q, k, x) == SubSeq(q, 1, k - 1) \o <<x>> \o SubSeq(q, k, Len(q))
 Without2(q, i, j) == IF i < j THEN Remove(Remove(q, j), i) ELSE Remove(Remove(q, i), j)
 Synthesis(i, j, p1) ==
     LET e == pe[i] + ke[i] + pe[j] + ke[j] - p1 IN
-    /\ act' = A("synthesis", i, j, p1, 0) /\ h' = h - 2
+    /\ act' = A("synthesis", i, j, p1, 0) /\ h' = h - 2 /\ UNCHANGED below
     /\ IF e >= 0
        THEN /\ \E k \in 1..(N - 1) :
                  /\ pe' = InsertAt(Without2(pe, i, j), k, p1)
                  /\ ke' = InsertAt(Without2(ke, i, j), k, e)
+                 /\ sol' = InsertAt(Without2(sol, i, j), k, Fresh)
             /\ buffer' = buffer /\ res' = [k |-> "accepted"]
-       ELSE UNCHANGED <<pe, ke, buffer>> /\ res' = [k |-> "rejected"]
+       ELSE UNCHANGED <<pe, ke, sol, buffer>> /\ res' = [k |-> "rejected"]
 
 \* the initialisation component executed (again) on a state that already holds molecule records: afterwards there is
 \* exactly one fresh record per individual, each with the configured initial kinetic energy; the buffer is kept
 Reinit(k0) ==
-    /\ h = 1 /\ act' = A("init", 0, 0, k0, 0) /\ res' = [k |-> "ok"] /\ h' = h
-    /\ ke' = [i \in 1..N |-> k0] /\ UNCHANGED <<pe, buffer>>
+    /\ h = below + 1 /\ act' = A("init", 0, 0, k0, 0) /\ res' = [k |-> "ok"] /\ h' = h
+    /\ ke' = [i \in 1..N |-> k0] /\ UNCHANGED <<pe, sol, buffer, below>>
 
 \* a second reaction system initialised and used inside a child scope (its own molecule records and buffer shadow the
 \* caller's): when the scope is left, the caller's records and buffer are what they were
 ScopedInit(k0) ==
-    /\ h = 1 /\ act' = A("scoped_init", 0, 0, k0, 0) /\ res' = [k |-> "ok"] /\ h' = h
-    /\ UNCHANGED <<pe, ke, buffer>>
+    /\ h = below + 1 /\ act' = A("scoped_init", 0, 0, k0, 0) /\ res' = [k |-> "ok"] /\ h' = h
+    /\ UNCHANGED <<pe, ke, sol, buffer, below>>
 
 \* the template puts reactants and products on the stack before each update
-Prepare == /\ h = 1 /\ h' = 3 /\ act' = A("prepare", 0, 0, 0, 0) /\ res' = [k |-> "ok"]
-           /\ UNCHANGED <<pe, ke, buffer>>
+Prepare == /\ h = below + 1 /\ h' = h + 2 /\ act' = A("prepare", 0, 0, 0, 0) /\ res' = [k |-> "ok"]
+           /\ UNCHANGED <<pe, ke, sol, buffer, below>>
 
 E == 0..MaxE
+\* which individuals share a solution: every partition of the positions into at most MaxSol classes (named in order of
+\* first occurrence -- the names themselves mean nothing)
+Sols == 1..MaxSol
+SolPattern(q) == q[1] = 1 /\ \A i \in 2..Len(q) : q[i] > 1 => \E j \in 1..(i - 1) : q[j] = q[i] - 1
 CInit == /\ pe \in UNION {[1..n -> E] : n \in 1..MaxMol}
          /\ ke \in [1..Len(pe) -> E]
+         /\ sol \in {q \in [1..Len(pe) -> Sols] : SolPattern(q)}
          /\ buffer \in E
-         /\ h = 1 /\ act = A("init", 0, 0, 0, 0) /\ res = [k |-> "ok"]
+         /\ below \in 0..MaxBelow
+         /\ h = below + 1 /\ act = A("init", 0, 0, 0, 0) /\ res = [k |-> "ok"]
 Bounded == /\ N <= MaxMol /\ buffer <= 3 * MaxE
            /\ \A i \in 1..N : ke[i] <= 3 * MaxE
 \* one reaction update, named by its action record (shared by the model checker and the trace specification)
@@ -115,7 +143,7 @@ Acts == {A("on_wall", i, 0, p, 0) : i \in 1..N, p \in E}
         \cup {A("synthesis", x[1], x[2], p, 0) : x \in {y \in (1..N) \X (1..N) : y[1] # y[2]}, p \in E}
 CNext == \/ Prepare
          \/ \E k0 \in E : Reinit(k0) \/ ScopedInit(k0)
-         \/ /\ h = 3 /\ \E a \in Acts : Do(a)
+         \/ /\ h = below + 3 /\ \E a \in Acts : Do(a)
 CSpec == CInit /\ [][CNext]_cvars
 
 ---------------------------------------------------------------------------
@@ -124,15 +152,19 @@ Conserved == [][act'.op \notin {"init"} => Total(pe', ke', buffer') = Total(pe, 
 \* no molecule or the buffer ever has negative energy
 NonNegative == buffer >= 0 /\ \A i \in 1..Len(ke) : ke[i] >= 0
 \* exactly one molecule record per individual
-Aligned == Len(ke) = Len(pe) /\ Len(pe) >= 1
-\* an update consumes exactly the reactant and product populations
-ConsumesTwo == [][act'.op \in {"on_wall", "decompose", "intermolecular", "synthesis"} => h = 3 /\ h' = 1]_cvars
-\* a rejected reaction changes nothing; an accepted one changes only the molecules taking part
+Aligned == Len(ke) = Len(pe) /\ Len(sol) = Len(pe) /\ Len(pe) >= 1
+\* an update consumes exactly the reactant and product populations, however many populations lie underneath
+ConsumesTwo == [][act'.op \in {"on_wall", "decompose", "intermolecular", "synthesis"} =>
+                     h = below + 3 /\ h' = below + 1 /\ below' = below]_cvars
+\* a rejected reaction changes nothing; an accepted one changes only the molecules taking part -- whatever the
+\* bystanders hold (be it the very solution of a reactant)
 Locality ==
-    [][ /\ res'.k = "rejected" => pe' = pe /\ ke' = ke /\ buffer' = buffer
+    [][ /\ res'.k = "rejected" => pe' = pe /\ ke' = ke /\ sol' = sol /\ buffer' = buffer
         /\ (act'.op \in {"on_wall", "intermolecular"} /\ res'.k = "accepted") =>
               /\ Len(pe') = Len(pe)
-              /\ \A x \in 1..Len(pe) : (x # act'.i /\ x # act'.j) => pe'[x] = pe[x] /\ ke'[x] = ke[x]
+              /\ \A x \in 1..Len(pe) : (x # act'.i /\ x # act'.j) => pe'[x] = pe[x] /\ ke'[x] = ke[x] /\ sol'[x] = sol[x]
         /\ (act'.op = "synthesis" /\ res'.k = "accepted") => Len(pe') = Len(pe) - 1
-        /\ (act'.op = "decompose" /\ res'.k = "accepted") => Len(pe') = Len(pe) + 1 ]_cvars
+        /\ (act'.op = "decompose" /\ res'.k = "accepted") =>
+              /\ Len(pe') = Len(pe) + 1
+              /\ \A x \in 1..Len(pe) : x # act'.i => pe'[x] = pe[x] /\ ke'[x] = ke[x] /\ sol'[x] = sol[x] ]_cvars
 =============================================================================
